@@ -227,3 +227,8 @@ for o in (0, 2, 3, 4, 5, 6, 7, 8, 9):
     ob(f'bitfield::rg_toggle_alloc_o{o}', ['C01', 'C03', 'C21'], ['bitfield::Bitfield::toggle'], tier='quick' if o in (0, 4, 8) else 'thorough', bound=RG_B % o, assumes=RG_ASSUMES, timeout=1200, cover=False)
     ob(f'bitfield::rg_toggle_free_o{o}', ['C01', 'C03', 'C21'], ['bitfield::Bitfield::toggle'], tier='quick' if o in (0, 3, 7) else 'thorough', bound=RG_B % o + '; the freed block is held by this thread',
        assumes=RG_ASSUMES, timeout=1200, cover=False)
+for n in (1, 2, 4):
+    for kind in ('alloc', 'free'):
+        ob(f'atomic::rg_cas_all_{kind}_n{n}', ['C01', 'C03', 'C21'], ['atomic::AtomicSlice::compare_exchange_all'], tier='quick' if n in (1, 4) else 'thorough',
+           bound=f'table of 4 entries with any contents, block of {n} whole huge frame(s), any entries already owned, an environment that may overwrite any entry this thread does not own before every access',
+           assumes=['rely: other threads never change an entry this thread owns as a whole huge frame (they meet the same guarantee)'], timeout=900, cover=False)
